@@ -276,10 +276,14 @@ def run(ctx):
     scripts = hist_scripts(rng, 120 if q else 2000)
     c = sd.consts('file', NOid=3, Metas=('m0',), MaxTxn=14, MaxRecs=4, MaxClock=8, AtomVals=('v1', 'v2'), Cls='MCClsPlain')
     behs = sc.evaluate(ctx, 'hist', scripts, c)
+    if sum(1 for s_, b in zip(scripts, behs) if sc.complete(s_, b)) < len(behs):
+        raise RuntimeError('history scripts were not evaluated to their end')
     jobs = [(b, c, os.path.join(ctx.scratch, 'h-%d' % i), {'rng_seed': ctx.seed * 7777 + i}) for i, b in enumerate(behs)]
     # the same over a DemoStorage: the first 2-3 transactions become the base, the rest goes to the changes
     dscripts = demo_scripts(rng, 40 if q else 600)
     dbehs = sc.evaluate(ctx, 'hist-demo', dscripts, c)
+    if sum(1 for s_, b in zip(dscripts, dbehs) if sc.complete(s_, b)) < len(dbehs):
+        raise RuntimeError('demo history scripts were not evaluated to their end')
     jobs += [(b, c, os.path.join(ctx.scratch, 'hd-%d' % i), {'rng_seed': ctx.seed * 9999 + i, 'demo_after': 2 + i % 2})
              for i, b in enumerate(dbehs)]
     res = par.pmap(replay_hist, jobs, chunksize=2)
